@@ -42,6 +42,9 @@ PREFIX_POOL = ["x", "ns0", "XTCE", "D", "U", "L", "R", "S", "P", "C", "E", "B", 
 def spellings(rng):
     return [xmlgen.Spelling("prefix", "xtce"), xmlgen.Spelling("prefix", rng.choice(PREFIX_POOL)),
             xmlgen.Spelling("default"), xmlgen.Spelling("none", extra_ns=False), xmlgen.Spelling("none", extra_ns=True)]
+    # (not reachable from here: one namespace under two prefixes inside one document — the requests carry the abstract
+    #  tree and a namespace map, the text is rebuilt from them with one prefix per namespace; `xmlgen.Spelling(mixed=True)`
+    #  can write such text, but nothing feeds it to the library yet. Recorded blind spot: seed C16-j1.)
 
 
 def load_item(xml, sp):
@@ -83,7 +86,7 @@ def generate(rng, tier):
         rend = []
         for sp in sps:
             for comments, pretty in ((0.0, True), (0.35, True), (0.35, False)):
-                sp2 = xmlgen.Spelling(sp.kind, sp.prefix, comments=0.0, pretty=pretty, extra_ns=sp.extra_ns)
+                sp2 = xmlgen.Spelling(sp.kind, sp.prefix, comments=0.0, pretty=pretty, extra_ns=sp.extra_ns, mixed=sp.mixed)
                 xml = xmlgen.document(random.Random(seed), dsx, sp2)
                 # some integer types become time types (units / scale / offset / reference time), the same ones in
                 # every rendering
